@@ -279,6 +279,11 @@ theorem static_ok (T : Tables) : ∀ f, StaticOK T f := by
           | none => simp [hm] at h
           | some nodes =>
             simp only [hm] at h
+            have hsc : (!spansClosed e.members) = false := by
+              cases hc : (!spansClosed e.members) with
+              | false => rfl
+              | true => simp [hc] at h
+            simp only [hsc, Bool.false_eq_true, if_false] at h
             obtain ⟨hd, hf⟩ := memberNodes_spec T _ _ _ hm
             have s := ihL _ _ hf h
             rw [hd] at s
